@@ -56,6 +56,19 @@ CHECKS['C08'] = dict(
    technique="TLA+ step-level model with deviation self-test + spec->code history replay + code->spec trace validation",
    ref="5/C08")
 
+CHECKS['C01'] = dict(
+   text="AbbrTree.tla: an online generator of the documented grammar drives, in the same step, the parser's ctx/stack machine (one "
+        "frame per statements() activation, unrolled like the converter) and an independent depth-number contract; TLC checks that "
+        "both denote the same pre-order listing, that every written element occurs exactly once per repetition and in written order, "
+        "for every skeleton up to the bound (full alphabet, a deep single-name instance for stack discipline, all documented "
+        "implicit-name parents and all inline parents) and for simulated abbreviations of 30-44 tokens. Every complete abbreviation "
+        "is expanded by the real expand() under html/xhtml/xml x format on/off and its tag listing, read by an independent lexer, "
+        "must equal the contract's listing with implicit names resolved by the documented table.",
+   note="Bounded skeletons; '>' after a group or a self-closed element and the undocumented extra parents of the implicit-name table "
+        "are outside the generated grammar. Trusted: TLC, the tag lexer harness/project_html.py.",
+   technique="TLA+ spec (stack machine = depth contract by TLC) + spec->code replay of every generated abbreviation",
+   ref="5/C01")
+
 NOT_YET = {}
 
 def main():
